@@ -22,6 +22,7 @@ import (
 	"context"
 	"encoding/base64"
 	"fmt"
+	"io"
 	"os"
 	"path/filepath"
 	"strconv"
@@ -96,7 +97,7 @@ func declaredSizeCases(tier string) []dcase {
 	dataGood := cat(rawHdr{name: "usr/", typeflag: '5', mode: "0000755\x00"}.bytes(), paxHdr(sumRec, 'x'), rawHdr{name: "usr/g", typeflag: '0', body: []byte("x")}.bytes())
 	sigGood := rawHdr{name: ".SIGN.RSA.k.rsa.pub", typeflag: '0', body: []byte("s")}.bytes()
 	// the well-formed streams themselves (what the hostile ones are variations of): must be read
-	for _, rd := range []string{"expandapk.Split", "expandapk.ExpandApk", "ParsePackage", "InstallPackages", "InstallPackages-memfs"} {
+	for _, rd := range []string{"expandapk.Split", "expandapk.ExpandApk", "ParsePackage", "InstallPackages", "InstallPackages-memfs", "NewAPKFS"} {
 		cs = append(cs, dcase{rd, "declared-size/well-formed/unsigned", cat(gz(ctlGood), gz(dataGood)), nil},
 			dcase{rd, "declared-size/well-formed/signed", cat(gz(sigGood), gz(ctlGood), gz(dataGood)), nil})
 	}
@@ -123,7 +124,7 @@ func declaredSizeCases(tier string) []dcase {
 				}
 			}
 			// ---- .apk streams
-			apkReaders := []string{"expandapk.Split", "expandapk.ExpandApk", "ParsePackage", "InstallPackages", "InstallPackages-memfs"}
+			apkReaders := []string{"expandapk.Split", "expandapk.ExpandApk", "ParsePackage", "InstallPackages", "InstallPackages-memfs", "NewAPKFS"}
 			for _, rd := range apkReaders {
 				for _, nm := range []string{".PKGINFO", ".pre-install", ".melange.yaml"} {
 					tf := byte('0')
@@ -234,6 +235,38 @@ func declSizeReaders(rs map[string]func(c dcase) error) {
 	rs["parseRepositoryIndex"] = func(c dcase) error {
 		_, err := apk.VerifParseRepositoryIndex(ctx, "https://r.example/x86_64/APKINDEX.tar.gz", map[string][]byte{"k.rsa.pub": []byte("not a key")}, "x86_64", c.data)
 		return err
+	}
+	// apkfs.NewAPKFS (exported, no caller inside apko): the data and the control section of a package file as an fs.FS
+	rs["NewAPKFS"] = func(c dcase) error {
+		d, err := os.MkdirTemp(tmpRoot, "apkfs")
+		if err != nil {
+			return nil
+		}
+		defer os.RemoveAll(d)
+		p := filepath.Join(d, "p.apk")
+		if err := os.WriteFile(p, c.data, 0o644); err != nil {
+			return nil
+		}
+		var first error
+		for _, t := range []apkfs.APKFSType{apkfs.APKFSPackage, apkfs.APKFSControl} {
+			afs, err := apkfs.NewAPKFS(ctx, p, t)
+			if err != nil {
+				if first == nil {
+					first = err
+				}
+				continue
+			}
+			for _, n := range []string{"/", ".", "usr", "/usr", "usr/f", "usr/g", "./usr/g", ".PKGINFO", "usr/l", "usr/h", "usr/c", "nope", ""} {
+				_, _ = afs.Stat(n)
+				_, _ = afs.ReadDir(n)
+				if f, err := afs.Open(n); err == nil {
+					_, _ = io.CopyN(io.Discard, f, 1<<20)
+					_ = f.Close()
+				}
+			}
+			_ = afs.Close()
+		}
+		return first
 	}
 	rs["InstallPackages"] = func(c dcase) error { return installPipeline(ctx, c.data, true) }
 	rs["InstallPackages-memfs"] = func(c dcase) error { return installPipeline(ctx, c.data, false) }
